@@ -4,6 +4,7 @@
 //!   impl.txt    the implementation's canonical answer to each line
 //!   oracle.txt  `FAIL <what> <replay>` for every case on which the property itself failed
 //!   stats.json  counts and input distribution
+mod c03;
 mod c04;
 mod c05;
 mod c10;
@@ -62,6 +63,7 @@ fn main() {
     // panics of the code under test are caught per case; keep stderr quiet
     std::panic::set_hook(Box::new(|_| {}));
     match prop.as_str() {
+        "C03" => c03::run(&cfg),
         "C04" => c04::run(&cfg),
         "C05" => c05::run(&cfg),
         "C10" => c10::run(&cfg),
